@@ -395,19 +395,26 @@ def guarded_eval(ck, lib, worker, req, pair, convex, stats, what=''):
     rc2 = e2.rc
   m_ = lib.model_from_xml(req['xml'])
   it0 = int(m_.opt.ccd_iterations)
-  survived = False
+  # Root cause (confirmed by instrumenting addEdge in a scratch build): epa()'s horizon arrays hold 24 edges and addEdge() has
+  # no bound check; after enough EPA iterations on curved / flat-capped geoms a new support point sees a silhouette of > 24
+  # edges (39 observed) and the arrays are overrun into the neighbouring stack memory. With ccd_iterations <= 20 the polytope
+  # has at most 25 vertices and the horizon cannot exceed the buffer, so the same pose must survive there; it may or may
+  # not survive with other large limits (200: dies, 237: dies, 1000: survives for the second reproducer).
+  survived = None
   if convex:
-    try:
-      worker.call(dict(req, ccd_iterations=it0 + 37))
-      survived = True
-    except WorkerDied:
-      survived = False
-  msg = ('mj_forward / mj_geomDistance kills the process (rc %s, %s) on a %s-%s pose; deterministic; with ccd_iterations %d -> %d '
-         'the same pose %s; request=%s' % (rc1, rc2, pair[0], pair[1], it0, it0 + 37,
-                                           'survives' if survived else 'was not retried / dies too', req))
-  if convex and survived:
+    for it in (20, it0 + 37):
+      try:
+        worker.call(dict(req, ccd_iterations=it))
+        survived = it
+        break
+      except WorkerDied:
+        continue
+  msg = ('mj_forward / mj_geomDistance kills the process (rc %s, %s) on a %s-%s pose; deterministic; ccd_iterations %d; re-run with '
+         'ccd_iterations 20 / %d: %s; request=%s' % (rc1, rc2, pair[0], pair[1], it0, it0 + 37,
+                                                     'survives with %d' % survived if survived else 'not retried / dies too', req))
+  if convex and survived and it0 > 24:
     stats['finding:epa-buffer-overrun-iteration-limit'] = stats.get('finding:epa-buffer-overrun-iteration-limit', 0) + 1
-    ck.violation('native EPA overruns its polytope buffers when it exhausts ccd_iterations (SIGSEGV in epa/projectOriginPlane) -- '
+    ck.violation('native EPA overruns its horizon buffer (24 edges, addEdge has no bound check) after many iterations -- '
                  + msg, dict(req), bucket='known:epa-buffer-overrun-iteration-limit',
                  fingerprint='%s:epa-buffer-overrun-iteration-limit' % ck.pid)
   else:
